@@ -30,7 +30,7 @@ mod c10;
 mod c11;
 #[cfg(all(kani, feature = "c12"))]
 mod c12;
-#[cfg(all(kani, feature = "c13"))]
+#[cfg(all(kani, any(feature = "c13", feature = "c03", feature = "c14", feature = "c15")))]
 mod c13;
 #[cfg(all(kani, feature = "c14"))]
 mod c14;
